@@ -179,6 +179,21 @@ class BuildError(ToolError):
         self.text = text
 
 
+FOLLOWERS = None     # path of a JSON file with the follower suffixes (C07) emitted by the specification
+
+
+def set_followers(wd, res):
+    """Keep the follower suffixes a TLC run emitted (META record) for the replay binaries."""
+    global FOLLOWERS
+    meta = res["records"].get("META", [{}])[0]
+    fl = meta.get("followers") or meta.get("suffixes")
+    if fl:
+        FOLLOWERS = os.path.join(wd, "followers.json")
+        with open(FOLLOWERS, "w") as f:
+            json.dump(fl, f)
+    return fl or []
+
+
 def run_runner(binary, cases_path, findings_path, n_cases, case_timeout=20.0, total_timeout=3600, env_extra=None, mem_limit_kb=None):
     """Run the replay binary over the case file.  A crash or a hang is attributed to the case
     named in the heartbeat file and becomes a finding; the run then resumes after it."""
@@ -187,6 +202,8 @@ def run_runner(binary, cases_path, findings_path, n_cases, case_timeout=20.0, to
     start = 0
     aborted = []
     env = dict(ENV)
+    if FOLLOWERS:
+        env["DV_FOLLOWERS"] = FOLLOWERS
     env.update(env_extra or {})
     t_end = time.time() + total_timeout
     while True:
